@@ -332,3 +332,147 @@ impl<I: Iterator> BatchSource<I> {
         v
     }
 }
+
+// ---------------------------------------------------------------------------------------
+// Chunked sweep: families of indexed cases; a worker runs a whole index range in-process
+// and replies with its Tally. When a worker dies on a range, the range is re-submitted one
+// index at a time so that the abort / hang is attributed to exactly one case.
+
+use crate::tally::Tally;
+use std::collections::VecDeque;
+
+#[derive(Clone, Debug)]
+pub struct Family {
+    pub tag: String,
+    /// indices first..count are swept
+    pub first: u64,
+    pub count: u64,
+}
+
+impl Family {
+    pub fn new(tag: impl Into<String>, count: u64) -> Self {
+        Family { tag: tag.into(), first: 0, count }
+    }
+    pub fn single(tag: impl Into<String>, index: u64) -> Self {
+        Family { tag: tag.into(), first: index, count: index + 1 }
+    }
+}
+
+#[derive(Clone, Debug)]
+pub struct Fatal {
+    pub family: String,
+    pub index: u64,
+    pub status: Status,
+}
+
+#[derive(Clone, Debug)]
+struct Range {
+    fam: usize,
+    lo: u64,
+    hi: u64,
+}
+
+pub struct SweepResult {
+    pub tally: Tally,
+    pub fatals: Vec<Fatal>,
+    pub respawns: u64,
+    pub chunks: u64,
+}
+
+pub fn sweep(
+    exe: &Path,
+    worker_args: &[String],
+    workers: usize,
+    families: &[Family],
+    chunk: u64,
+    watchdog: Duration,
+) -> Result<SweepResult, String> {
+    let mut q: VecDeque<Range> = VecDeque::new();
+    for (fi, f) in families.iter().enumerate() {
+        let mut lo = f.first;
+        while lo < f.count {
+            let hi = (lo + chunk).min(f.count);
+            q.push_back(Range { fam: fi, lo, hi });
+            lo = hi;
+        }
+    }
+    let nchunks = q.len() as u64;
+    let queue = Mutex::new(q);
+    let total = Mutex::new(Tally::new());
+    let fatals: Mutex<Vec<Fatal>> = Mutex::new(Vec::new());
+    let bad: Mutex<Option<String>> = Mutex::new(None);
+    let stats = run_pool(
+        exe,
+        worker_args,
+        workers,
+        watchdog,
+        || {
+            let mut g = queue.lock().unwrap();
+            match g.pop_front() {
+                Some(r) => vec![r],
+                None => vec![],
+            }
+        },
+        |r: &Range| format!("{} {} {}", families[r.fam].tag, r.lo, r.hi),
+        |r: &Range, st: Status| match st {
+            Status::Ok { payload, .. } => match serde_json::from_str::<Tally>(&payload) {
+                Ok(t) => total.lock().unwrap().absorb(t),
+                Err(e) => *bad.lock().unwrap() = Some(format!("unparsable tally from worker: {}", e)),
+            },
+            other => {
+                if r.hi - r.lo > 1 {
+                    let mut g = queue.lock().unwrap();
+                    for i in (r.lo..r.hi).rev() {
+                        g.push_front(Range { fam: r.fam, lo: i, hi: i + 1 });
+                    }
+                } else {
+                    fatals.lock().unwrap().push(Fatal { family: families[r.fam].tag.clone(), index: r.lo, status: other });
+                }
+            }
+        },
+    )?;
+    if let Some(b) = bad.into_inner().unwrap() {
+        return Err(b);
+    }
+    let mut f = fatals.into_inner().unwrap();
+    f.sort_by(|a, b| (a.family.as_str(), a.index).cmp(&(b.family.as_str(), b.index)));
+    Ok(SweepResult { tally: total.into_inner().unwrap(), fatals: f, respawns: stats.respawns, chunks: nchunks })
+}
+
+/// Worker side of `sweep`. `run(family_tag, index, tally)` executes one case; it should catch
+/// the subject's panics itself (util::catch) — a panic escaping it is recorded as a violation.
+pub fn sweep_worker(run: impl Fn(&str, u64, &mut Tally)) {
+    worker_loop(
+        |_l| usize::MAX,
+        |line| {
+            let mut it = line.split(' ');
+            let fam = it.next().unwrap_or("");
+            let lo: u64 = it.next().and_then(|s| s.parse().ok()).unwrap_or(0);
+            let hi: u64 = it.next().and_then(|s| s.parse().ok()).unwrap_or(0);
+            let mut t = Tally::new();
+            for i in lo..hi {
+                if let Err(p) = crate::util::catch(|| run(fam, i, &mut t)) {
+                    t.violate(
+                        format!("panic@{}", p.location),
+                        format!("uncaught panic while running case {} #{}: {}", fam, i, p.message),
+                        serde_json::json!({"family": fam, "index": i}),
+                    );
+                }
+            }
+            serde_json::to_string(&t).unwrap()
+        },
+    );
+}
+
+/// Describe a fatal status as (signature, summary).
+pub fn describe_fatal(what: &str, st: &Status) -> (String, String) {
+    match st {
+        Status::Died { how, refused_alloc, stderr_tail } => (
+            format!("abort:{}", what),
+            format!("{} killed the process ({}; refused allocation {:?}; {})", what, how, refused_alloc, stderr_tail),
+        ),
+        Status::Timeout => (format!("timeout:{}", what), format!("{} did not return within the watchdog period", what)),
+        Status::Panic { location, message, .. } => (format!("panic@{}", location), format!("{} panicked: {}", what, message)),
+        Status::Ok { .. } => ("ok".into(), "ok".into()),
+    }
+}
